@@ -175,8 +175,8 @@ impl Node {
                     let v = m.get(*k).unwrap();
                     let base = format!(
                         "{}={}@{}/{}/{}",
-                        esc(k.as_bytes()),
-                        esc(v.value.as_bytes()),
+                        escv(k.as_bytes()),
+                        escv(v.value.as_bytes()),
                         v.version,
                         state_letter(v.state),
                         v.opp_id
